@@ -12,6 +12,7 @@ SetOf(q) == {q[i] : i \in DOMAIN q}
 PairsOf(q) == {<<q[i][1], <<q[i][2][1], q[i][2][2]>>>> : i \in DOMAIN q}
 LitOf(r) == [op |-> r.op, w |-> <<r.w[1], r.w[2]>>, atom |-> r.atom, ann |-> r.ann]
 RuleOf(r) == [h |-> r.h, ht |-> r.ht] @@ LitOf(r) @@ (IF "lit2" \in DOMAIN r THEN [lit2 |-> LitOf(r.lit2)] ELSE <<>>)
+             @@ (IF "let" \in DOMAIN r THEN [let |-> <<r.let[1], r.let[2]>>] ELSE <<>>)
 Expected(c) == TModel({RuleOf(c.rules[i]) : i \in DOMAIN c.rules}, PairsOf(c.tfacts), {}, c.now, 6)
 \* Databases with overlapping intervals of one atom (C05): the operators' meaning is documented for
 \* coalesced facts only, so such a case is judged for order-independence alone: every presentation
